@@ -60,6 +60,11 @@ def correspondence(ctx):
         if out["errors"]:
             ctx.violations.append({"key": "task error", "what": f"a coordinator task raised during the probe session: {out['errors'][:1]}",
                                    "replay": {"kind": "worker", "args": list(args)}})
+        if out.get("second_run_equal") is False:
+            ctx.violations.append({"key": f"a second game in the same process differs ({'dynamic' if dyn else 'static'} addresses)",
+                                   "what": f"scenario {sc}, seed {seed}: two coordinators started one after the other in ONE process on the same configuration file and fed the same messages answered differently; first difference {str(out.get('second_run_first_difference'))[:400]}",
+                                   "replay": {"kind": "worker_pair", "scenario": sc, "dynamic": dyn, "seed": seed, "defender": gdf, "hashseeds": [hs, hs], "episodes": ep}})
+        ctx.coverage["same_process_second_runs"] = ctx.coverage.get("same_process_second_runs", 0) + 1
         groups.setdefault((sc, dyn, seed, gdf), []).append((hs, out))
         if not gdf:
             hashes.setdefault(sc, set()).add(out["hash"])
@@ -106,6 +111,10 @@ def replay(ctx, payload):
             print("a worker failed:", [e for _, _, e in runs])
             return 1
         same = outs[0]["transcript"] == outs[1]["transcript"] and outs[0]["hash"] == outs[1]["hash"] and outs[0]["ip_mapping"] == outs[1]["ip_mapping"]
+        for o in outs:
+            if o.get("second_run_equal") is False:
+                print("a second coordinator in the same process answered differently; first difference:", str(o.get("second_run_first_difference"))[:600])
+                same = False
         print("the two processes produced", "identical" if same else "DIFFERENT", "transcripts / hashes / address maps")
         if not same:
             print("VIOLATION property=C20 replay=(this file)")
